@@ -9,7 +9,9 @@ export GOFLAGS=-mod=mod GOPROXY=off GOSUMDB=off GOTOOLCHAIN=local
 cd /repo || exit 2
 if [ -n "$(git status --porcelain)" ]; then echo "repo working tree not clean"; exit 2; fi
 git apply "$PATCH" || { echo "PATCH-DOES-NOT-APPLY $PATCH"; exit 2; }
-trap 'git -C /repo checkout -- . ; git -C /repo clean -fdq; (cd /verif && ./run.sh build >/dev/null 2>&1)' EXIT
+# evidence written while a change is applied must not replace the evidence of the unchanged tree
+EVBAK=$(mktemp -d /var/tmp/evbak.XXXXXX); cp -a /verif/evidence/. "$EVBAK"/
+trap 'rm -rf /verif/evidence; mkdir -p /verif/evidence; cp -a "$EVBAK"/. /verif/evidence/; rm -rf "$EVBAK"; git -C /repo checkout -- . ; git -C /repo clean -fdq; (cd /verif && ./run.sh build >/dev/null 2>&1)' EXIT
 if go build ./... 2>/tmp/mutant-build.log && go test -count=1 ./... >/tmp/mutant-test.log 2>&1; then
   echo "suite: PASS"
 else
